@@ -60,6 +60,17 @@ class Multiplication:
       return self
     else:
       s, sn = self._segment_and_segment_name(segment)
+      if copy_names is not None:
+        # check the names before anything is changed
+        if len(copy_names) != factor - 1:
+          raise gfapy.ArgumentError(
+            "{} copy names are required ".format(factor - 1)+
+            "for a multiplication factor of {} ".format(factor)+
+            "({} found)".format(len(copy_names)))
+        for i, cn in enumerate(copy_names):
+          if cn in self.names or cn in copy_names[:i]:
+            raise gfapy.NotUniqueError(
+              "The copy name '{}' is already in use".format(cn))
       if track_origin and not s.get(origin_tag):
         s.set(origin_tag, sn)
       self.__divide_segment_and_connection_counts(s, factor)
